@@ -195,6 +195,14 @@ class LTerm:
     def define_member(self, m):
         pass
 
+    def any_member(self, idx=None):
+        """member at an ARBITRARY index: valid only where the index is in range (never forces len > 0)"""
+        ctx = self.ctx
+        if idx is None:
+            idx = ctx.fresh_int("i")
+        idx = to_z3(idx)
+        return self.new_member(z3.And(idx >= 0, idx < self.length()), idx)
+
     def describe(self):
         return type(self).__name__
 
@@ -685,6 +693,11 @@ class Ctx:
                         changed = True
                 elif isinstance(t, Concat):
                     done = t.__dict__.setdefault("_fwd", set())
+                    for pi, p in enumerate(t.parts):
+                        if isinstance(p, Conc) and p.etype is not None and not getattr(p, "_all_members", False):
+                            p._all_members = True
+                            for k in range(len(p.items)):
+                                p.new_member(TRUE, z3.IntVal(k))
                     for pi, p in enumerate(t.parts):
                         for pm in list(p.members):
                             if pm.serial in done:
